@@ -689,6 +689,14 @@ class PropertyFilter:
         except KeyError:
             return False
 
+        # A property that occurs more than once is a list of values; the
+        # filter matches if one of the instances satisfies it.
+        return any(
+            self._match_instance(p, tzify)
+            for p in (prop if isinstance(prop, list) else [prop])
+        )
+
+    def _match_instance(self, prop, tzify: TzifyFunction) -> bool:
         if self.time_range and not self.time_range.match(prop, tzify):
             return False
 
